@@ -149,6 +149,23 @@ Section LcsSpecProofs.
         rewrite Hlast by (intros ->; cbn in Hl; lia). now rewrite Hl.
   Qed.
 
+  (* ---- agreement with the model, for ANY boolean test (no law: not reflexive such as == on
+     NaN, not symmetric, ...): the result is an exact subsequence of the shorter input xs that
+     matches a subsequence of the other input ys under the test called as eqb x y, nothing of that
+     kind is longer, and its length is the reference optimum of (xs, ys) ---- *)
+  Theorem lcs_func_any_test : forall l r, exists s, lcs_func T eqb l r = Some s /\
+    let (xs, ys) := lcs_swap T l r in
+    Subseq s xs /\ SubseqB eqb s ys /\
+    (forall u, Subseq u xs -> SubseqB eqb u ys -> length u <= length s) /\
+    length s = lcs_len_ref T eqb xs ys.
+  Proof.
+    intros l r. destruct (lcs_func_spec T eqb l r) as (s & H & Hs). exists s. split; [exact H|].
+    destruct (lcs_swap T l r) as [xs ys]. destruct Hs as (A & B & C). unfold Opt in C.
+    repeat split; auto.
+    destruct (lcs_len_ref_optimal xs ys) as [(u & U1 & U2 & U3) Bd].
+    specialize (C u U1 U2). specialize (Bd s A B). lia.
+  Qed.
+
   (* ---- agreement with the model ---- *)
   Section Equivalence.
     Hypothesis eqb_refl : forall x, eqb x x = true.
